@@ -33,4 +33,5 @@ INVARIANT SurgeryThenMean
 INVARIANT DefFacts
 INVARIANT MedianFacts
 INVARIANT CurIsLight
+INVARIANT RescueKeepsTotal
 INVARIANT Emit
